@@ -72,16 +72,18 @@ Print Assumptions encode_deterministic.
 (* ---- generic prototype vs typed prototype ---- *)
 
 (* for ANY block the generic prototype accepts, loading with the typed prototype gives
-   exactly what unwrapping the generic node gives (the same value or an error) *)
+   exactly what unwrapping the generic node gives (the same value or an error); nothing is
+   claimed for blocks the generic prototype rejects *)
 Theorem generic_eq_typed :
   forall (b : bytes) (n : node), generic_load b = Ok n ->
     typed_load_ad b = unwrap_ad n /\ typed_load_chunk b = unwrap_chunk n.
 Proof. exact generic_eq_typed_proved. Qed.
 Print Assumptions generic_eq_typed.
 
-(* the converse is false of the code as it is (known finding): a block with a repeated
-   field is rejected by the generic prototype and accepted by the typed one, which
-   concatenates the repeated list *)
+(* documented observation, not a violation of the property (which, for arbitrary bytes,
+   asks for an error or a re-encodable value): the typed prototype accepts strictly more
+   than the generic one -- a block with a repeated field is rejected by the generic
+   prototype and accepted by the typed one, which concatenates the repeated list *)
 Theorem typed_accepts_what_generic_rejects :
   (exists c, generic_load dup_block = Err c) /\
   typed_load_chunk dup_block = Ok {| c_entries := [[1]; [2]; [3]]; c_next := None |}.
